@@ -52,7 +52,7 @@ func (h *harness) probeFatal() {
 		{"fatal-setvalues", "", "SetValues when the configuration file does not exist"},
 	}
 	for _, c := range cases {
-		code, out, to := h.runChild(c.mode, 30*time.Second, "C18_ARG="+c.arg)
+		code, out, to := h.runChild(c.mode, 180*time.Second, "C18_ARG="+c.arg)
 		h.rep.Case("child "+c.mode+" "+c.arg, true)
 		h.rep.Count("child:" + c.mode)
 		if to {
@@ -74,7 +74,7 @@ func (h *harness) streamRace() {
 	if h.env.Thorough {
 		dur = "8000"
 	}
-	code, out, to := h.runChild("race", 120*time.Second, "C18_ARG="+dur)
+	code, out, to := h.runChild("race", 300*time.Second, "C18_ARG="+dur)
 	h.rep.Case("child race "+dur+"ms", true)
 	h.rep.Count("child:race")
 	for _, l := range strings.Split(out, "\n") {
@@ -106,7 +106,7 @@ func (h *harness) streamReset() {
 	if h.env.Thorough {
 		dur = "6000"
 	}
-	code, out, to := h.runChild("reset", 120*time.Second, "C18_ARG="+dur)
+	code, out, to := h.runChild("reset", 300*time.Second, "C18_ARG="+dur)
 	h.rep.Case("child reset "+dur+"ms", true)
 	h.rep.Count("child:reset")
 	for _, l := range strings.Split(out, "\n") {
@@ -149,7 +149,7 @@ func (h *harness) streamWriteFault() {
 }
 
 func (h *harness) oneWriteFault(via, fault string) {
-	code, out, to := h.runChild("write-fault", 60*time.Second, "C18_ARG="+via+" "+fault)
+	code, out, to := h.runChild("write-fault", 180*time.Second, "C18_ARG="+via+" "+fault)
 	h.rep.Case("child write-fault "+via+" "+fault, true)
 	h.rep.Count("child:write-fault")
 	res := firstLineWith(out, "RESULT ")
